@@ -29,7 +29,7 @@ class Universe:
         self.M = M
         self.nodes = {k: M.Node(name=k) for k in "ABC"}
         mk = lambda nm: M.Link(1, 2, 1.0, 180, 30, 100, 1.8, name=nm)
-        self.links = {"L1": mk("L1"), "L2": mk("L2")}
+        self.links = {"L1": mk("L1"), "L2": mk("L2"), "L1b": mk("L1")}  # L1b: a different link object that carries the name "L1"
         self.origins = {"O1": M.Origin(name="O1"), "O2": M.MeteredOnRamp(2000, name="O2")}
         self.dests = {"D1": M.Destination(name="D1"), "D2": M.CongestedDestination(name="D2")}
         self.junk = object()
@@ -86,6 +86,9 @@ def operations():
         for l in Lk:
             op(f"add_link({u},{l},{v})", lambda net, U, u=u, l=l, v=v: net.add_link(U.nodes[u], U.links[l], U.nodes[v]),
                lambda m, u=u, l=l, v=v: m.add_link(u, l, v))
+    # replacing the link of an edge by a DIFFERENT object with the SAME name
+    op("add_link(A,L1b,B)", lambda net, U: net.add_link(U.nodes["A"], U.links["L1b"], U.nodes["B"]), lambda m: m.add_link("A", "L1b", "B"))
+    op("add_path(A-L1b-B)", lambda net, U: net.add_path([U.nodes["A"], U.links["L1b"], U.nodes["B"]]), lambda m: m.add_link("A", "L1b", "B"))
     op("add_links([(A,L2,B),(B,L1,C)])", lambda net, U: net.add_links([(U.nodes["A"], U.links["L2"], U.nodes["B"]), (U.nodes["B"], U.links["L1"], U.nodes["C"])]),
        lambda m: (m.add_link("A", "L2", "B"), m.add_link("B", "L1", "C")))
     op("add_links([(C,L1,A)])", lambda net, U: net.add_links([(U.nodes["C"], U.links["L1"], U.nodes["A"])]), lambda m: m.add_link("C", "L1", "A"))
